@@ -65,10 +65,19 @@ func hhmmCmp(c *ctx, h1, m1, h2, m2 int, tag string) {
 	c.w.Emit(fmt.Sprintf("hhmm-cmp %d %d %d %d", h1, m1, h2, m2), out, tag)
 }
 
+var segmentCases int
+
 func segmentCase(c *ctx, k, h1, m1, h2, m2 int, tag string) {
 	u, d := newClient(nil, types.BroadcastAddr{})
 	segs := types.Segments{1: {}, 2: {}, 3: {}}
 	segs[uint8(k)] = types.Segment{Start: types.NewHHmm(h1, m1), End: types.NewHHmm(h2, m2)}
+	// every third profile also carries entries under keys nobody asks for (only 1..3 are segments): they change nothing
+	if segmentCases++; segmentCases%3 == 0 {
+		for x := 4; x < 64; x++ {
+			segs[uint8(x)] = types.Segment{}
+		}
+		segs[0] = types.Segment{Start: types.NewHHmm(12, 0), End: types.NewHHmm(11, 0)}
+	}
 	profile := types.TimeProfile{ID: 29, From: types.ToDate(2024, 1, 1), To: types.ToDate(2024, 12, 31),
 		Weekdays: types.Weekdays{}, Segments: segs}
 	out := guard(func() string {
